@@ -27,15 +27,16 @@ TRUSTED = [
 ]
 ASSUMPTIONS = ["particles are separated by more than the exclusion distance plus the filter support and lie at least "
                "that far inside the image",
-               "scores of LoG / DoG picks are compared up to the truncation of the Gaussian kernels at the block "
-               "margins (positions and rotations are compared exactly)"]
+               "plateaus of equal response wider than two voxels across a chunk face are not covered by the one-voxel "
+               "labelling margin"]
 EXPLANATION = (
     "Theorems: for EVERY chunking (any number / sizes of chunks, incl. smaller than the depth or empty) and depth, "
     "each position inside the image is kept by exactly one block and positions in the outside padding by none; "
     "the kept local position is reported at the original pixel position times scale; with a detector that is "
     "right inside block cores the concatenated result lists every particle exactly once and nothing else; a "
-    "numpy image is the one-chunk case; overlap depths cover the exclusion radii (LoG/DoG ceil(2 sigma) >= sigma; "
-    "template matching: the landscape of a block covers its core +- ceil(min_distance), odd and even templates); "
+    "numpy image is the one-chunk case; a pipeline of local operators run on a block equals the whole-image "
+    "pipeline on the block's core when the overlap covers the summed radii, and the LoG/DoG depths cover scipy's "
+    "kernel radius int(4 sigma + 0.5) + ceil(sigma) + 1; template matching: the landscape of a block covers its core +- ceil(min_distance), odd and even templates); "
     "the max-filter footprint contains its centre and stays within the radius. K2: a stub detector that reports "
     "marked voxels (plus junk at block edges) through the real pick_molecules on random dask chunkings vs the "
     "model. Oracle: LoG / DoG / ZNCC pickers on planted particles, numpy vs chunkings, scales, dtypes.")
@@ -55,7 +56,7 @@ def k1_grids(rng, thorough):
         "pickDepthClamp": [[s, d] for s in range(0, 9) for d in range(0, 9)],
         "pickDepthWithMargin": [[d, m] for d in range(0, 7) for m in range(0, 5)],
         "logDepth": [[a, s] for a in [Fraction(k, 4) for k in range(0, 30, 3)] for s in sc],
-        "dogDepth": [[a, s] for a in [Fraction(k, 4) for k in range(0, 30, 3)] for s in sc],
+        "dogDepth": [[a, a * Fraction(r, 4), s] for a in [Fraction(k, 4) for k in range(0, 30, 3)] for r in (5, 7, 13) for s in sc],
         "tmDepth": [[n] for n in range(1, 45)],
         "tmMargin": [[Fraction(k, 4)] for k in range(0, 30)],
         "tmOffset": [[n] for n in range(1, 45)],
@@ -241,9 +242,21 @@ def run_case(inp):
             if kind in ("log", "dog"):
                 sig = float(inp["sigma"])                       # particle size (px)
                 pts = _layout(r, shape, int(np.ceil(6 * sig)), int(np.ceil(3 * sig)), int(inp["n"]))
-                img = _cast(_blobs(shape, pts, sig), inp["dtype"])
+                plateau = inp.get("plateau")
+                if plateau is not None:
+                    # particles centred between two voxels along one axis: two equal maxima, one particle
+                    e = np.eye(3, dtype=int)[int(plateau)]
+                    a0 = np.zeros(shape, dtype=np.float32)
+                    for p in pts:
+                        a0[tuple(p)] = a0[tuple(np.array(p) + e)] = 100.0
+                    from scipy import ndimage as _ndi
+                    img = _cast(_ndi.gaussian_filter(a0, sig), inp["dtype"])
+                else:
+                    img = _cast(_blobs(shape, pts, sig), inp["dtype"])
                 P = pick.LoGPicker(sig * scale) if kind == "log" else pick.DoGPicker(sig * scale, 1.6 * sig * scale)
                 want = np.array(sorted(pts), dtype=np.float64) * scale
+                if plateau is not None:
+                    want = want + 0.5 * np.eye(3)[int(plateau)] * scale
                 tol = 1e-3 * max(1.0, scale)
                 quat_ref = None
             else:
@@ -294,7 +307,7 @@ def run_case(inp):
             except Exception as e:  # noqa: BLE001
                 V("no-error", f"{kind} picker on a numpy image raised {type(e).__name__}: {str(e)[:100]}")
                 return viols
-            if len(ref[0]) != len(want) or np.abs(ref[0] - want).max() > max(tol, 0.51 * scale if kind != "tm" and inp["dtype"] in ("int16", "uint8") else tol):
+            if len(ref[0]) != len(want) or np.abs(ref[0] - want).max() > max(tol, 0.51 * scale if kind != "tm" and (inp["dtype"] in ("int16", "uint8") or inp.get("plateau") is not None) else tol):
                 V("planted", f"{kind} picker (numpy, dtype {inp['dtype']}, scale {scale}): {len(ref[0])} picks "
                              f"{np.round(ref[0], 2).tolist()[:8]} for {len(want)} particles at {want.tolist()[:8]}")
                 return viols
@@ -328,10 +341,10 @@ def run_case(inp):
                 if kind == "tm" and rel > 1e-3:
                     V("chunk-independent", f"{kind} picker with chunks {chunks}: scores differ from the numpy result by "
                                            f"{100 * rel:.1f} %")
-                elif kind != "tm" and rel > 0.02:
-                    # the blocks overlap by ceil(2 sigma) while the Gaussian kernels reach 4 sigma (DoG: 4 sigma_high)
+                elif kind != "tm" and rel > 1e-4:
+                    # the blocks overlap by the kernel radius (4 sigma; DoG: 4 sigma_high) + search radius + 1
                     V("blob-score", f"{kind} picker with chunks {chunks}: scores differ from the numpy result by "
-                                    f"{100 * rel:.1f} % (same positions)")
+                                    f"{100 * rel:.3g} % (same positions)")
                     break
     return viols
 
@@ -479,6 +492,14 @@ def oracle(rng, thorough, deep=False, hints=None):
                           scale=float([1.0, 0.5, 2.0, 0.2][i % 4]), dtype=["float32", "float64", "int16", "uint8"][i % 4],
                           chunkings=[list(c) for c in _chunk_variants(r, shape, 2 if big else 1)],
                           seed=int(rng.integers(0, 10 ** 6)), scheduler=["synchronous", "threads"][i % 2]))
+    # particles centred between two voxels (two equal maxima); the extra chunking cuts right between them
+    for i in range(6 if big else 2):
+        shape = [int(v) for v in rng.integers(36, 48, size=3)]
+        r = np.random.default_rng(int(rng.integers(0, 10 ** 6)))
+        cases.append(dict(kind=["log", "dog"][i % 2], shape=shape, sigma=float([1.5, 2.0][i % 2]), n=int(rng.integers(1, 4)),
+                          scale=float([1.0, 0.5, 2.0][i % 3]), dtype=["float32", "float64"][i % 2], plateau=int(rng.integers(0, 3)),
+                          chunkings=[list(c) for c in _chunk_variants(r, shape, 1)],
+                          seed=int(rng.integers(0, 10 ** 6)), scheduler="synchronous"))
     for i in range(4 if big else 2):
         shape = [int(v) for v in rng.integers(34, 44, size=3)]
         r = np.random.default_rng(int(rng.integers(0, 10 ** 6)))
